@@ -25,7 +25,8 @@ RULE = ('Hypothesis-generated queries of the C01-C05 generators (select / where 
         'pandas dataframes (copy(deep=True) then equals + dtypes + index + columns), a sqlite file (sha256 of the file, no -journal/-wal side file, every SQL string '
         'handed to the connection recorded by a proxy and matched against ^SELECT \\* FROM [A-Za-z0-9_]+;$), CSV input and join files (sha256 + mtime_ns, for '
         'query_csv and the CLI). Hostile join-table / input-table identifiers for sqlite come from a grammar of SQL metacharacters. '
-        'Non-trivial = an UPDATE that changes at least one field, or a failing query, or a hostile identifier; distinct = case digests.')
+        'Non-trivial = an UPDATE that changes at least one field, or a failing query, or a hostile identifier; distinct = case digests.'
+        " Later additions: tuple records, mutable (list / dict) cells under every aggregate, WITH (...) modifiers, dataframes with named / permuted / string indexes, a caller's open sqlite transaction, an output destination that is the sources' directory.")
 ASSUMPTIONS = ['table identifiers taken from the query text cannot contain spaces or line breaks (the query parser splits on them)']
 
 
